@@ -238,7 +238,7 @@ func stepName(cx *Ctx, s *Step) string {
 			if m := storageMethod(c); m != "" {
 				names = append(names, m)
 			} else if cal := calleeOf(c); cal != nil && cal.Pkg != nil && isModulePath(cal.Pkg.Pkg.Path()) && cal.Parent() == nil && !isCheckerMethod(cal) {
-				names = append(names, cal.Name())
+				names = append(names, fnName(cal))
 			}
 		}
 	}
